@@ -167,6 +167,13 @@ ALIAS_DIRECTED = [
     'empty @is_you(int a, int b) { int[] v = [a, b, 3]; sw(v, v); write(v[0]); write(\' \'); write(v[1]); write(\' \'); v[a] = touch(v, a) + v[a]; write(v[a]); write(\' \'); v[b] += touch(v, b); write(v[b]); int[] w2 = [touch(v, 0), v[0], touch(v, 0)]; write(w2[0] + w2[1] + w2[2]); }\n',
     'int g = 5;\nint bump() { g = g + 10; return g; }\nbyte bbump() { g = g + 1; return (g is byte); }\nbool tb() { g = g * 2; return g > 20; }\n'
     'empty @is_you(int a, int b) { write(g + bump()); write(\' \'); write(bump() + g); write(\' \'); write(g + bbump()); write(\' \'); write(g * (bbump() is int)); write(\' \'); write(g < bump()); write(\' \'); write((g > a) and tb()); write(\' \'); write(g - (g + bump())); write(\' \'); write([g, bump(), g][a]); write(\' \'); string s = "abcdefghijklmnopqrstuvwxyzabcdefghijklmnopqrstuvwxyz"; write(s[g - bump() + 12]); write(g); }\n',
+    # every evaluation of an array literal is a NEW array (loops, repeated calls, recursion, literal arguments), whatever its elements
+    'int bump(int[] c) { c[0] += 1; return c[0]; }\nbyte bb(byte[] c) { c[1] = c[0]; c[0] = \'!\'; return c[1]; }\nbool flip(bool[] m) { m[0] = not m[0]; return m[0]; }\n'
+    'int tally(int n) { int[] acc = [0, 0]; for (int i = 0; i < n; i += 1) { acc[0] += 1; acc[1] += i; } return acc[0] * 100 + acc[1]; }\n'
+    'int depth(int n) { bool[] seen = [false]; if (seen[0]) { return n; } seen[0] = true; if (n == 0) { return 0; } return depth(n - 1) + 1; }\n'
+    'empty @is_you(int a, int b) { write(tally(3)); write(\' \'); write(tally(b + 1)); write(\' \'); for (int i = 0; i < 3; i += 1) { write(bump([0])); write(bump([7, 8])); write(bb([\'p\', \'q\'])); write(flip([false, true])); '
+    'string[] ss = ["a", "b"]; write(ss[i % 2]); ss[0] = "z"; ss[1] = ss[0]; } write(depth(a + 2)); write(\' \');\n'
+    '  for (int k = 0; k < 2; k += 1) { int[] v = [1, 2, 3]; byte[] w = [\'x\', \'y\']; bool[] m = [true, false, true, false, true, false, true, false, true]; write(v[k]); write(w[k]); write(m[k]); write(m[8]); v[k] = 9; v[k + 1] = 8; w[k] = \'#\'; m[k] = not m[k]; m[8] = false; } }\n',
     'string gs = "hello";\nint chg() { gs = "HELLO WORLD"; return 1; }\nbyte[] gb = [\'x\', \'y\', \'z\'];\nint chb() { gb[1] = \'!\'; return 1; }\n'
     'empty @is_you(int a, int b) { write(gs[chg()]); write(gs.length + chg()); write(gb[chb()]); write(gb[a] is int + chb()); write(gs); write(gb); }\n',
 ]
